@@ -73,6 +73,12 @@ static Result judge_C03(const Case& c) {
   if (known && !ref::node_equal(t.ast, o.ast, &why)) return fail("tree built through the construction API differs from what the calls are documented to build at " + why);
   r.nontrivial = ref::node_count(o.ast) >= 3 || has_indef_or_nan(o.ast) || st.boundary || st.shared;
   ref::Bytes want = ref::encode(o.ast);
+  // the history of this process includes serializations that ran out of room (one byte short, and half): what they
+  // return is C07's business, but they must not change what the serializations below produce
+  if (want.size() >= 2 && want.size() <= 4096) {
+    for (size_t room : {want.size() - 1, want.size() / 2}) { uint8_t* sb = (uint8_t*)malloc(room); (void)cbor_serialize(t.item, sb, room); free(sb); }
+    vh::counters["short_buffer_serializations_before_the_judged_one"] += 2;
+  }
   unsigned char* buf = nullptr; size_t blen = 0;
   size_t w = cbor_serialize_alloc(t.item, &buf, &blen);
   if (!buf || w == 0) return fail("cbor_serialize_alloc failed for a tree of " + std::to_string(want.size()) + " encoded bytes");
